@@ -391,6 +391,9 @@ func (s *Spec) ProvExpr(p *Prov) string {
 		return fmt.Sprintf("kessoku.Value(%s)", p.ValExpr)
 	case PStruct:
 		inner = fmt.Sprintf("kessoku.Struct[%s]()", s.Expr(p.Results[0], ""))
+		if p.TypeAlias != "" {
+			inner = fmt.Sprintf("kessoku.Struct[%s]()", p.TypeAlias)
+		}
 		if p.Async {
 			inner = "kessoku.Async(" + inner + ")"
 		}
